@@ -124,8 +124,46 @@ template <glm::qualifier Q> static void reg_pack() {
 	add_op(name("convertSRGBToLinear"), "fZ4", "f4", 'V', 'V', 0, FN { ST(out, glm::convertSRGBToLinear(VL<4, float, Q>::ld(in))); });
 }
 
+// gtx functions that read or write quaternion components by index (storage-order dependent code)
+template <class T, glm::qualifier Q> static void reg_gtxquat() {
+	const char tl = (char)SA<T>::L;
+	auto name = [&](const char* b) { return nm<T, Q>(b, "quat"); };
+	// decompose(T * R(q) * S): orientation (w,x,y,z), scale, translation. The branch of the quaternion extraction is chosen by the trace
+	// and the largest diagonal entry of R: cases within 1/32 of a branch boundary are counted, not compared (either branch is right, with
+	// different rounding)
+	add_op(name("decompose"), spec("@U4 @P3 @F3", tl), spec("@4 @3 @3", tl), 'U', 'U', 256,
+	       FN { glm::qua<T, Q> q = LDQ<T, Q>(in); glm::vec<3, T, Q> sc = VL<3, T, Q>::ld(in + 4), tr = VL<3, T, Q>::ld(in + 7);
+		       glm::mat<4, 4, T, Q> M = glm::translate(glm::mat<4, 4, T, Q>(T(1)), tr) * glm::mat4_cast(q) * glm::scale(glm::mat<4, 4, T, Q>(T(1)), sc);
+		       glm::vec<3, T, Q> s2, t2, skew; glm::vec<4, T, Q> persp; glm::qua<T, Q> o;
+		       bool ok = glm::decompose(M, s2, o, t2, skew, persp);
+		       if (!ok) { o = glm::qua<T, Q>(T(0), T(0), T(0), T(0)); s2 = t2 = glm::vec<3, T, Q>(T(0)); }
+		       STQ(out, o); ST(out + 4, s2); ST(out + 7, t2); },
+	       SC { return 4 * (1 + amax<T>(in, 4, 6)); },
+	       SC { long double w = (long double)SA<T>::get(in[0]), x = (long double)SA<T>::get(in[1]), y = (long double)SA<T>::get(in[2]), z = (long double)SA<T>::get(in[3]);
+		       long double n = w * w + x * x + y * y + z * z; if (!(n > 0.25L)) return 0.0L;
+		       long double d0 = (w * w + x * x - y * y - z * z) / n, d1 = (w * w - x * x + y * y - z * z) / n, d2 = (w * w - x * x - y * y + z * z) / n, tr = d0 + d1 + d2;
+		       long double m = fabsl(tr); if (fabsl(d0 - d1) < m) m = fabsl(d0 - d1); if (fabsl(d1 - d2) < m) m = fabsl(d1 - d2); if (fabsl(d0 - d2) < m) m = fabsl(d0 - d2);
+		       long double smin = fabsl((long double)SA<T>::get(in[4])); for (int i = 5; i < 7; ++i) if (fabsl((long double)SA<T>::get(in[i])) < smin) smin = fabsl((long double)SA<T>::get(in[i]));
+		       if (smin < 1.0L / 64) return 0.0L;
+		       return m * 32; });
+	add_op(name("gtx_rotate_vec3"), spec("@U4 @F3", tl), spec("@3", tl), 'U', 'U', 64, FN { ST(out, glm::rotate(LDQ<T, Q>(in), VL<3, T, Q>::ld(in + 4))); }, SC { return 4 * amax<T>(in, 4, 3); });
+	add_op(name("gtx_toMat4"), spec("@U4", tl), spec("@16", tl), 'U', 'U', 8, FN { STM(out, glm::toMat4(LDQ<T, Q>(in))); }, SC { return 4.0L; });
+	add_op(name("gtx_extractRealComponent"), spec("@T3", tl), spec("@1", tl), 'U', 'U', 8, FN { glm::qua<T, Q> q = glm::qua<T, Q>::wxyz(T(0), SA<T>::get(in[0]) * T(0.5), SA<T>::get(in[1]) * T(0.5), SA<T>::get(in[2]) * T(0.5)); ST1(out, glm::extractRealComponent(q)); }, SC { return 1.0L; });
+}
+
+// classifiers of gtx/common and gtx/compatibility (each has a pre-C++11 fallback)
+template <class T, glm::qualifier Q> static void reg_classify() {
+	const char tl = (char)SA<T>::L;
+	add_op(nm<T, Q>("isdenormal", "scalar"), spec("@N1", tl), "i1", 'B', 'B', 0, FN { ST1(out, (int)glm::isdenormal(SA<T>::get(in[0]))); });
+	add_op(nm<T, Q>("isdenormal", "vec3"), spec("@N3", tl), "i3", 'B', 'B', 0, FN { glm::vec<3, bool, Q> r = glm::isdenormal(VL<3, T, Q>::ld(in)); for (int i = 0; i < 3; ++i) ST1(out + i, (int)r[i]); });
+	add_op(nm<T, Q>("isdenormal_next_to_zero", "scalar"), spec("iW1", tl), "i1", 'B', 'B', 0, FN { T x = std::numeric_limits<T>::denorm_min() * (T)(in[0].i); ST1(out, (int)glm::isdenormal(x) * 2 + (int)glm::isdenormal(-x)); });
+	add_op(nm<T, Q>("gtx_fmod", "vec2"), spec("@F2 @Y2", tl), spec("@2", tl), 'B', 'B', 0, FN { ST(out, glm::fmod(VL<2, T, Q>::ld(in), VL<2, T, Q>::ld(in + 2))); });
+}
+
 template <class T, glm::qualifier Q> static void reg_tq() {
 	reg_quat<T, Q>();
+	reg_classify<T, Q>();
+	reg_gtxquat<T, Q>();
 	reg_matctor<T, Q, 2, 2>(); reg_matctor<T, Q, 2, 3>(); reg_matctor<T, Q, 2, 4>(); reg_matctor<T, Q, 3, 2>(); reg_matctor<T, Q, 3, 3>(); reg_matctor<T, Q, 3, 4>(); reg_matctor<T, Q, 4, 2>(); reg_matctor<T, Q, 4, 3>(); reg_matctor<T, Q, 4, 4>();
 	reg_transform<T, Q>();
 }
